@@ -341,8 +341,16 @@ def _case(job):
         for i, task in enumerate(case["pipe"]):
             h0 = sha(cur)
             nxt = d / ("out%d.rtdc" % i)
+            req = nxt
+            if extra == "sibling-output" and i == 0:
+                # the output is requested next to the input under the
+                # input's stem with another suffix: the task appends .rtdc
+                req, nxt = d / "in.tmp", d / "in.tmp.rtdc"
             try:
-                run_task(task, cur, nxt)
+                run_task(task, cur, req)
+                if not cur.exists():
+                    out.append(("input file removed by " + task, tag))
+                    break
             except BaseException as exc:
                 out.append(("%s raises %s (%s strings, len %s)" % (
                     task, type(exc).__name__, descr["str"], descr["len"]),
